@@ -327,6 +327,22 @@ def _pw_inspect(rng, var, t, v, fresh, depth=0):
     return []
 
 
+def _pw_chain(rng):
+    """a chain of nested sums around a small leaf, the other arms of unequal widths: (type, value along the chain)"""
+    t = rng.choice([("B",), ("U", 0), ("U", 1), ("U", 2), ("T", (("U", 1), ("B",)))])
+    v = gen.gen_val(rng, t)
+    for _ in range(rng.choice([2, 2, 3, 4])):
+        other = rng.choice([("U", 0), ("U", 1), ("U", 2), ("U", 3), ("U", 4), gen.UNIT, ("B",), ("T", (("U", 3), ("U", 1))), ("O", ("U", 2))])
+        c = rng.random()
+        if c < 0.4:
+            t, v = ("E", t, other), ("l", v, other)
+        elif c < 0.8:
+            t, v = ("E", other, t), ("r", other, v)
+        else:
+            t, v = ("O", t), ("s", v)
+    return t, v
+
+
 def partial_witness_programs(chk, n, label):
     """programs that inspect only part of a (nested sum / product) witness: the inferred type of the witness node is then
     smaller than the declared type, which is where satisfy has to re-type (prune) the supplied value"""
@@ -339,8 +355,11 @@ def partial_witness_programs(chk, n, label):
         fresh = Fresh()
         body, wits, guide = [], [], []
         for j in range(nw):
-            t = _pw_type(rng, rng.choice([2, 3, 3, 4]))
-            v = gen.gen_val(rng, t)
+            if rng.random() < 0.5:
+                t, v = _pw_chain(rng)
+            else:
+                t = _pw_type(rng, rng.choice([2, 3, 3, 4]))
+                v = gen.gen_val(rng, t)
             body.append("let w%d: %s = witness::W%d;" % (j, gen.ty_src(t), j))
             body += _pw_inspect(rng, "w%d" % j, t, v, fresh)
             wits.append(("W%d" % j, t))
@@ -348,4 +367,48 @@ def partial_witness_programs(chk, n, label):
         p = Prog("fn main() { %s }" % " ".join(body), wits, "%s/%d" % (label, i))
         p.extra_assign = [guide]
         out.append(p)
+    return out
+
+
+# ----------------------------------------------------------------------------- strictness: effects of discarded values
+def effect_programs():
+    """every initializer is evaluated, also when its value is discarded by the pattern (call by value): fallible expressions
+    bound to identifier-free patterns / dropped by statements, in main, nested blocks, match arms and function bodies"""
+    from checks.c08 import Prog
+    B, U8 = ("B",), ("U", 3)
+    fall = [
+        ("unwrap(witness::O)", {"O": ("O", U8)}, "u8", ""),
+        ("unwrap_left::<u8>(witness::E)", {"E": ("E", B, U8)}, "bool", ""),
+        ("unwrap_right::<bool>(witness::E)", {"E": ("E", B, U8)}, "u8", ""),
+        ("assert!(witness::B)", {"B": B}, "()", ""),
+        ("chk(witness::B)", {"B": B}, "(u8, bool)", "fn chk(b: bool) -> (u8, bool) { assert!(b); (1, b) }\n"),
+        ("match witness::B { true => 7, false => panic!(), }", {"B": B}, "u8", ""),
+        ("{ assert!(witness::B); 3 }", {"B": B}, "u8", ""),
+        ("[unwrap(witness::O), 1]", {"O": ("O", U8)}, "[u8; 2]", ""),
+        ("(unwrap(witness::O), assert!(witness::B))", {"O": ("O", U8), "B": B}, "(u8, ())", ""),
+        ("dbg!(unwrap(witness::O))", {"O": ("O", U8)}, "u8", ""),
+        ("<u8>::into(unwrap(witness::O))", {"O": ("O", U8)}, "u8", ""),
+        ("Some(unwrap(witness::O))", {"O": ("O", U8)}, "Option<u8>", ""),
+    ]
+    pats = {"u8": ["_"], "bool": ["_"], "()": ["_", "()"], "(u8, bool)": ["_", "(_, _)"], "[u8; 2]": ["_", "[_, _]"], "(u8, ())": ["_", "(_, _)", "(_, ())"], "Option<u8>": ["_"]}
+    places = [
+        ("main", "%(fns)sfn main() { let %(p)s: %(t)s = %(e)s; }"),
+        ("main-then", "%(fns)sfn main() { let %(p)s: %(t)s = %(e)s; let k: u8 = 1; assert!(jet::eq_8(k, 1)); }"),
+        ("nested-block", "%(fns)sfn main() { { let %(p)s: %(t)s = %(e)s; }; }"),
+        ("block-value", "%(fns)sfn main() { let k: u8 = { let %(p)s: %(t)s = %(e)s; 4 }; assert!(jet::eq_8(k, 4)); }"),
+        ("match-arm", "%(fns)sfn main() { match true { true => { let %(p)s: %(t)s = %(e)s; }, false => (), }; }"),
+        ("function", "%(fns)sfn g() -> u8 { let %(p)s: %(t)s = %(e)s; 9 }\nfn main() { assert!(jet::eq_8(g(), 9)); }"),
+    ]
+    out = []
+    for e, wt, t, fns in fall:
+        for p in pats[t]:
+            for pl, tmpl in places:
+                if pl == "function" and "witness::" in e:
+                    continue   # witnesses may only be used in main
+                text = tmpl % {"fns": fns, "p": p, "t": t, "e": e}
+                out.append(Prog(text, list(wt.items()), "effect/%s/%s/%s" % (pl, p, e[:24])))
+    # in functions: the fallible value is passed in
+    for p, t, e in [("_", "u8", "unwrap(o)"), ("()", "()", "assert!(is_none::<u8>(o))"), ("(_, _)", "(u8, u8)", "(unwrap(o), 2)")]:
+        text = "fn g(o: Option<u8>) -> u8 { let %s: %s = %s; 9 }\nfn main() { assert!(jet::eq_8(g(witness::O), 9)); }" % (p, t, e)
+        out.append(Prog(text, [("O", ("O", U8))], "effect/fn/%s/%s" % (p, e[:20])))
     return out
